@@ -151,7 +151,10 @@ def observe_program(B, rec_xs, rec_ys, eqs, cases, rnd, res, stage, sp, f, space
                 # y on the boundary of dom f*: rounding may flip it (not at exactly dyadic points: there the
                 # evaluation is exact and a documented boundary convention has to hold as it stands)
                 cy = fu.value_near(fc, B, fu.frv(yq), anchors, hold_dyadic=True)[0]
-            if iseq and not (math.isfinite(fx + cy) and close(fx + cy, ip, max(abs(fx), abs(cy)))):
+                near = 1e3         # the value was taken 1e-9 away: the relation is blurred by as much
+            else:
+                near = 1.0
+            if iseq and not (math.isfinite(fx + cy) and close(fx + cy, ip, near * max(1.0, abs(fx), abs(cy), abs(ip)))):
                 bad.append('fenchel-young-equality')
             for cl in bad:
                 res['viol'].append((sig(cl), det(x=xq, y=yq, observed={'f(x)': fx, 'f*(y)': cy, '<x,y>': ip})))
@@ -176,14 +179,16 @@ def observe_program(B, rec_xs, rec_ys, eqs, cases, rnd, res, stage, sp, f, space
                     cy, err = _val(fc, g)
                     if err:
                         continue
+                    near = 1.0
                     if not math.isfinite(cy):
                         cy = fu.value_near(fc, B, fu.flat(g).tolist(), anchors, hold_dyadic=True)[0]
+                        near = 1e3
                     ip = float(x.inner(g))
                 except Exception:
                     continue
                 gq = fu.snapvec(fu.flat(g))
                 res['counts'].append(([f, space_name, 'fy-at-gradient', xq], True))
-                if not (math.isfinite(cy) and close(fx + cy, ip, max(abs(fx), abs(cy)))):
+                if not (math.isfinite(cy) and close(fx + cy, ip, near * max(1.0, abs(fx), abs(cy), abs(ip)))):
                     res['viol'].append((sig('fenchel-young-equality', {'at': 'gradient'}),
                                         det(x=xq, y=fu.flat(g).tolist(), observed={'f(x)': fx, 'f*(grad)': cy, '<x,grad>': ip})))
                 if all(fu.known(t) for t in gq):
